@@ -94,15 +94,17 @@ def deduced_amount(P, chk):
     idxm = mir.call_sites(b, ["std::ops::IndexMut::index_mut"])
     idx = mir.call_sites(b, ["std::ops::Index::index"])
     adds = mir.call_sites(b, [BAL + "::add_amount"])
-    ok = len(idxm) == 1 and len(idx) == 1 and len(adds) == 1
+    # the unfilled posting is reached through postings[u] (one mutable borrow used for both, or a write and a read)
+    ok = len(idxm) >= 1 and len(idxm) + len(idx) <= 2 and len(adds) == 1
     detail = "expected postings[u] write, postings[u] read and one add_amount"
     if ok:
-        u1 = idxm[0][1]["args"][1]
-        u2 = idx[0][1]["args"][1]
-        same_u = panics.same_root_loose(b, u1, u2)
+        sites = idxm + idx
+        u1 = sites[0][1]["args"][1]
+        same_u = all(panics.same_root_loose(b, u1, s_[1]["args"][1]) for s_ in sites[1:])
         at = adds[0][1]
         acc_ok = q.all_roots(b, at["args"][1], lambda r: r.kind == "call" and r.site is not None and
-                             callee_def(b.term(r.site)) == "std::ops::Index::index" and r.fields[-1:] == ("account",))
+                             callee_def(b.term(r.site)) in ("std::ops::Index::index", "std::ops::IndexMut::index_mut")
+                             and r.fields[-1:] == ("account",))
         amt_ok = q.all_roots(b, at["args"][2], lambda r: r.kind == "call" and r.site == nbb)
         bal_ok = q.all_roots(b, at["args"][0], lambda r: q.is_param(r, "bal"))
         # the stored amount
